@@ -176,7 +176,7 @@ class Explorer:
                 except Exception as e:  # concretisation is best effort
                     cm = {"_concretisation_error": repr(e)}
             ob.failure = {"path": self.paths, "decisions": [o[i] if isinstance(o[i], (bool, int)) else str(o[i]) for i, o in self.trail[:self.pos]],
-                          "model": cm, "note": note, "backend": backend,
+                          "model": cm, "note": note, "backend": backend, "last_exception": getattr(self, "last_exc", None),
                           "violated": str(c)[:600]}
             return False
         if ob.status != "failed":
